@@ -171,7 +171,8 @@ CLAIMED['C13'] = dict(category='proof',
         '(clad, gap with radiation term, each fuel shell), and the iteration limit raises an error. The coolant temperature '
         'handed to each pin is the average of ALL its adjacent subchannels weighted by the share of its circumference facing '
         'each; the stages of calculate_temperatures are chained on the right temperatures (clad from the coolant, gap from the '
-        'clad inner wall, fuel from the fuel surface).',
+        'clad inner wall, fuel from the fuel surface); the emissivity of the gap radiation is the one handed to the real '
+        'PinModel.__init__ (zero included: then the iterate is pure conduction), 0.9 only when none is given.',
    note=_ASSUME + 'log/sqrt handled by monotonicity certificates; the exit-state argument (iterates within atol) is the '
         'stated loop contract. Ring counts 2,3 (4 thorough) for the coolant weights.',
    technique='contract-based deductive verification (proxy execution, loops cut from the real source, exact normaliser, monotone-function certificates)')
@@ -220,7 +221,9 @@ CLAIMED['C03'] = dict(category='proof',
         'the power cells or falling inside one; _integrate returns the analytic cell integral for 1-4 polynomial terms and '
         'any subset of components; Reactor._setup_scale_asm_power scales every total, profile and average profile of '
         'every assembly by the same factor and the totals sum to requested power x scaling factor (normalisation on / '
-        'off, empty positions); AssemblyPower.__init__ applies its scale to every profile.',
+        'off, empty positions); the real Reactor._setup_asm_power assigns a user-power assembly the integral of its cell '
+        'averages over power cells of unequal (symbolic) widths and the core their sum; AssemblyPower.__init__ applies its '
+        'scale to every profile.',
    note=_ASSUME + 'Enumerated structures: 1-3 power cells, 1-3 steps per cell, 1-3 polynomial terms in the sweep identity '
         '(the code has no other size dependence). Preconditions: mesh planes on every power-cell boundary and bundle '
         'bound (C05), positive linear power (input check; negative values are clipped by the sweep). Bounded run-time '
